@@ -12,7 +12,9 @@ func (op *FsTxn) postCommit() {
 
 func (op *FsTxn) commitWait(wait bool) bool {
 	op.preCommit()
+	verifEv(3, op, verifB(wait))
 	ok := op.Atxn.Op.CommitWait(wait)
+	verifEv(4, op, verifB(ok))
 	op.postCommit()
 	return ok
 }
@@ -36,7 +38,9 @@ func (op *FsTxn) CommitUnstable() bool {
 // that is only an option if we do log-by-pass writes.
 func (op *FsTxn) CommitFh() bool {
 	op.preCommit()
+	verifEv(6, op, 0)
 	ok := op.Fs.Txn.Flush()
+	verifEv(7, op, verifB(ok))
 	op.postCommit()
 	return ok
 }
@@ -44,6 +48,7 @@ func (op *FsTxn) CommitFh() bool {
 // An aborted transaction may free an inode, which results in dirty
 // buffers that need to be written to log. So, call commit.
 func (op *FsTxn) Abort() bool {
+	verifEv(5, op, 0)
 	op.releaseInodes()
 	op.Atxn.PostAbort()
 	return true
